@@ -29,7 +29,7 @@ func (w *World) RecoverCrash(inst *Instance, nextCrash func(incarnation int) int
 		// the node keeps following its peers: in a third of the recoveries the
 		// chain moves while the process is down and while it starts again
 		// (catch-up and queued announcements overlap, see StartMoving)
-		moving := t.Bool(33)
+		moving := t.Int(3) == 1 // (not Bool: after a crash the tape of the fault-free twin is re-read, its values are small)
 		if moving {
 			for k := t.Int(3); k > 0; k-- {
 				if t.Bool(70) {
